@@ -150,6 +150,12 @@ Definition qty_to (r : reg) (x : Qc) (src dst : uc) : res Qc :=
     of an empty derivative map. *)
 Record meas := Meas { m_mag : aff; m_units : uc }.
 
+(** [Measurement(ufloat, units)] — the form every operator result is re-wrapped with
+    ([self.__class__(magnitude, units)], [error is MISSING: mag = value]): the uncertain number
+    is kept as it is; no fresh variable is created, so the result stays correlated with the
+    operands it was computed from *)
+Definition meas_wrap (a : aff) (u : uc) : meas := Meas a u.
+
 Definition meas_to (r : reg) (m : meas) (dst : uc) : res meas :=
   '(a, b) ←r conv_affine r (m_units m) dst; Ok (Meas (aff_affine a b (m_mag m)) dst).
 
